@@ -411,7 +411,8 @@ def rule_size_and_locals(facts):
 
 def run(ctx, t0):
     facts = ctx.facts()
-    rules = [rule_fields(facts), rule_entries(facts), rule_size_and_locals(facts)]
+    from rules import C08
+    rules = [rule_fields(facts), rule_entries(facts), rule_size_and_locals(facts), C08.rule_size_writers(facts, "C14.R3b")]
     expl = ("Static sibling agreement: the provenance term stored in each DecoderState field by reset_state is compared "
             "with the constructor's (field list taken from the ADT definition), on every path; the reset entry points "
             "are checked by dominance and by comparing the properties argument with the constructor's.")
